@@ -16,6 +16,7 @@ def stepLine (d : DState) (line : String) : DState × String :=
   | "S" :: rest => let (h, out) := SessDrv.step d.sess rest; ({ d with sess := h }, out)
   | "NM" :: rest => (d, NameMap.handle rest)
   | "CG" :: rest => (d, CandGraph.handle rest)
+  | "LB" :: rest => (d, Labels.handle rest)
   | _ => (d, "bad-op")
 
 partial def loop (hin : IO.FS.Stream) (hout : IO.FS.Stream) (d : DState) : IO Unit := do
